@@ -2,6 +2,12 @@
 
 package lalr
 
+import (
+	"sort"
+
+	"github.com/inspirer/textmapper/util/container"
+)
+
 // Hooks for the verification harness (/verif). They only expose package internals.
 
 // VerifNewLookaheadRule runs newLookaheadRule on a copy of the given alternatives.
@@ -9,4 +15,57 @@ func VerifNewLookaheadRule(las []Lookahead) (LookaheadRule, error) {
 	cp := make([]Lookahead, len(las))
 	copy(cp, las)
 	return newLookaheadRule(cp)
+}
+
+// VerifState is a read-only copy of one LR(0) state with its LALR(1) lookahead sets.
+type VerifState struct {
+	Index       int
+	Symbol      int
+	SourceState int
+	Core        [][2]int // kernel items as (rule, dot); empty for start states and synthesized final states
+	Reduce      []int    // rules that can be reduced in this state (sorted)
+	Shifts      []int    // target states, sorted by their symbol
+	LR0         bool
+	LA          [][]int // per entry of Reduce: sorted lookahead terminals (nil for lr0 states)
+}
+
+// VerifCompile runs the same phases as Compile (LALR(1), no minimization, no optimization) and also
+// returns the state machine the tables were built from.
+func VerifCompile(grammar *Grammar) ([]VerifState, *Tables, error) {
+	c := &compiler{
+		grammar:   grammar,
+		lookahead: 1,
+		out:       &Tables{DefaultEnc: &DefaultEnc{}},
+		empty:     container.NewBitSet(len(grammar.Symbols)),
+	}
+	c.init()
+	c.computeEmpty()
+	c.computeSets()
+	c.computeStates()
+	c.checkLR0()
+	c.initLalr()
+	c.buildLA(false, false)
+
+	var ret []VerifState
+	for _, s := range c.states {
+		vs := VerifState{Index: s.index, Symbol: int(s.symbol), SourceState: s.sourceState, LR0: s.lr0}
+		for _, item := range s.core {
+			rule := c.rule(item)
+			vs.Core = append(vs.Core, [2]int{rule, item - c.index[rule]})
+		}
+		vs.Reduce = append(vs.Reduce, s.reduce...)
+		vs.Shifts = append(vs.Shifts, s.shifts...)
+		if !s.lr0 {
+			for i := range s.reduce {
+				la := append([]int(nil), s.la[i]...)
+				sort.Ints(la)
+				vs.LA = append(vs.LA, la)
+			}
+		}
+		ret = append(ret, vs)
+	}
+
+	c.populateTables(false)
+	c.reportConflicts(false, false)
+	return ret, c.out, c.s.Err()
 }
